@@ -126,8 +126,8 @@ theorem openFlow_ledger_eqA {c : Cfg} {e : Env} {a amount x y : Nat} {m0 m1 : Li
     obtain ⟨r1, r2⟩ := io_feeRefund hs a paid a (c := c) (e := e)
     obtain ⟨c1, c2⟩ := io_send_inc collector_ne_inc a c.feeAsset c.feeAmt
     rw [hm0, outsOf_append, insOf_append, r1, r2, c1, c2]
-    have hno : ¬ ((c.feeAmt < paid ∧ c.native a = true ∧ a ≠ c.feeAsset) ∧ c.feeAsset = a) :=
-      fun hh => hh.1.2.2 hh.2.symm
+    have hno : ¬ ((c.feeAmt < paid ∧ ¬ (c.native a = true ∧ a = c.feeAsset)) ∧ c.feeAsset = a) :=
+      fun hh => hh.1.2 ⟨by rw [← hh.2]; exact hnf, hh.2.symm⟩
     simp only [if_neg hno]
     rcases openFlowAsset_spec hasset with ⟨hna, hy, hm1, hfunds⟩ | ⟨hna, hm1, hy⟩
     · subst hm1
@@ -238,6 +238,133 @@ theorem step_openFlow_exact {c : Cfg} {s s' : St} {e : Env} {a amt : Nat} {st en
     unfold balOf
     simp only
     rw [hfunded]
+    omega
+  · have t1 := attachFunds_eff (x := e.sender) (y := INC) COLLECTOR c.feeAsset _ _ _ hb
+    rw [if_neg (fun hh => hsc hh.1), if_neg (fun hh => collector_ne_inc hh.1.symm)] at t1
+    have t2 := applyMsgs_eff COLLECTOR c.feeAsset _ _ _ _ hb1
+    obtain ⟨t3, t4⟩ := openFlow_fee_to_collector hsc hfee hasset
+    simp only at t2
+    unfold balOf
+    simp only
+    omega
+
+/-- `feeRefund` with its condition as a proposition -/
+theorem feeRefund_eq (c : Cfg) (e : Env) (a paid : Nat) :
+    feeRefund c e a paid
+      = (if c.feeAmt < paid ∧ ¬ (c.native a = true ∧ a = c.feeAsset)
+         then [Msg.send INC e.sender c.feeAsset (paid - c.feeAmt)] else []) := by
+  unfold feeRefund
+  by_cases hc : c.feeAmt < paid ∧ ¬ (c.native a = true ∧ a = c.feeAsset)
+  · have hb : (decide (c.feeAmt < paid) && !(c.native a && decide (a = c.feeAsset))) = true := by
+      simp only [Bool.and_eq_true, Bool.not_eq_true', Bool.and_eq_false_iff, decide_eq_true_eq, decide_eq_false_iff_not]
+      refine ⟨hc.1, ?_⟩
+      by_cases hn : c.native a = true
+      · exact Or.inr (fun hh => hc.2 ⟨hn, hh⟩)
+      · exact Or.inl (by simpa using hn)
+    rw [if_pos hb, if_pos hc]
+  · have hb : ¬ (decide (c.feeAmt < paid) && !(c.native a && decide (a = c.feeAsset))) = true := by
+      simp only [Bool.and_eq_true, Bool.not_eq_true', Bool.and_eq_false_iff, decide_eq_true_eq, decide_eq_false_iff_not]
+      intro hh
+      apply hc
+      refine ⟨hh.1, fun h2 => ?_⟩
+      rcases hh.2 with h3 | h3
+      · rw [h2.1] at h3; cases h3
+      · exact h3 h2.2
+    rw [if_neg hb, if_neg hc]
+
+/-- a native fee, seen from the sender and from the contract in the fee denom: the messages of an accepted
+    `open_flow` hand the sender back everything attached in the fee denom except the fee and — when the flow
+    is opened in the fee denom itself — the flow amount; the contract pays out the rest -/
+theorem openFlow_fee_ledger {c : Cfg} {e : Env} {a amount x y : Nat} {m0 m1 : List Msg}
+    (hnf : c.native c.feeAsset = true) (hs : e.sender ≠ INC) (hsc : e.sender ≠ COLLECTOR)
+    (hn : (keysOf (fundsOf c e.offers)).Nodup)
+    (hfee : openFlowFee c e a amount = .ok (x, m0)) (hasset : openFlowAsset c e a x = .ok (y, m1)) :
+    outsOf e.sender c.feeAsset (m0 ++ m1) = 0
+    ∧ insOf e.sender c.feeAsset (m0 ++ m1) + c.feeAmt + (if a = c.feeAsset then amount - c.feeAmt else 0)
+        = att c c.feeAsset (fundsOf c e.offers)
+    ∧ insOf INC c.feeAsset (m0 ++ m1) = 0
+    ∧ outsOf INC c.feeAsset (m0 ++ m1) + (if a = c.feeAsset then amount - c.feeAmt else 0)
+        = att c c.feeAsset (fundsOf c e.offers) := by
+  rw [outsOf_append, insOf_append, outsOf_append, insOf_append]
+  have hic : INC ≠ COLLECTOR := by decide
+  rcases openFlowFee_spec hfee with ⟨_, paid, hp, hle, hm0, hx⟩ | ⟨hnf', _, _⟩
+  · have hpaid : att c c.feeAsset (fundsOf c e.offers) = paid := att_eq_of_mem hn (alook_some_mem hp) hnf
+    obtain ⟨r1, r2⟩ := io_feeRefund hs a paid c.feeAsset (c := c) (e := e)
+    obtain ⟨c1, c2⟩ := io_send_inc collector_ne_inc c.feeAsset c.feeAsset c.feeAmt
+    have hm1 : outsOf e.sender c.feeAsset m1 = 0 ∧ insOf e.sender c.feeAsset m1 = 0
+        ∧ outsOf INC c.feeAsset m1 = 0 ∧ insOf INC c.feeAsset m1 = 0 := by
+      rcases openFlowAsset_spec hasset with ⟨_, _, hm1, _⟩ | ⟨hna, hm1, _⟩
+      · subst hm1; exact ⟨rfl, rfl, rfl, rfl⟩
+      · have hne : ¬ a = c.feeAsset := fun hh => by rw [hh, hnf] at hna; cases hna
+        subst hm1
+        simp [insOf, outsOf, msgIn, msgOut, hne]
+    have hsame : (c.native a = true ∧ a = c.feeAsset) ↔ a = c.feeAsset :=
+      ⟨fun hh => hh.2, fun hh => ⟨by rw [hh]; exact hnf, hh⟩⟩
+    have hr : outsOf e.sender c.feeAsset (feeRefund c e a paid) = 0
+        ∧ insOf e.sender c.feeAsset (feeRefund c e a paid)
+            = (if c.feeAmt < paid ∧ ¬ (c.native a = true ∧ a = c.feeAsset) then paid - c.feeAmt else 0) := by
+      rw [feeRefund_eq]
+      by_cases hc : c.feeAmt < paid ∧ ¬ (c.native a = true ∧ a = c.feeAsset)
+      · rw [if_pos hc, if_pos hc]
+        simp [insOf, outsOf, msgIn, msgOut, Ne.symm hs]
+      · rw [if_neg hc, if_neg hc]
+        exact ⟨rfl, rfl⟩
+    have hcs : outsOf e.sender c.feeAsset [Msg.send INC COLLECTOR c.feeAsset c.feeAmt] = 0
+        ∧ insOf e.sender c.feeAsset [Msg.send INC COLLECTOR c.feeAsset c.feeAmt] = 0 := by
+      simp [insOf, outsOf, msgIn, msgOut, Ne.symm hs, Ne.symm hsc]
+    simp only [and_true, if_true] at r1 c1
+    rw [hm0, outsOf_append, insOf_append, outsOf_append, insOf_append, r1, r2, c1, c2, hr.1, hr.2, hcs.1, hcs.2,
+      hm1.1, hm1.2.1, hm1.2.2.1, hm1.2.2.2, hpaid]
+    rcases hx with ⟨hna, hafa, hx1, hx2⟩ | ⟨hns, hx1⟩
+    · have hno : ¬ (c.feeAmt < paid ∧ ¬ (c.native a = true ∧ a = c.feeAsset)) := fun hh => hh.2 ⟨hna, hafa⟩
+      simp only [if_neg hno, if_pos hafa, true_and]
+      omega
+    · have hne : ¬ a = c.feeAsset := fun hh => hns (hsame.mpr hh)
+      simp only [if_neg hne]
+      by_cases hlt : c.feeAmt < paid
+      · simp only [if_pos (show c.feeAmt < paid ∧ ¬ (c.native a = true ∧ a = c.feeAsset) from ⟨hlt, hns⟩), true_and]; omega
+      · simp only [if_neg (show ¬ (c.feeAmt < paid ∧ ¬ (c.native a = true ∧ a = c.feeAsset)) from fun hh => hlt hh.1), true_and]
+        omega
+  · rw [hnf] at hnf'; cases hnf'
+
+/-- **an over-paid native flow fee is refunded in full, whatever the kind of the flow asset**: an accepted
+    `open_flow` under a fee charged in a native denom — with ANY amount of that denom attached — lowers the
+    sender's balance of the fee denom by exactly the fee (plus the flow amount `amt - fee` when the flow is
+    opened in the fee denom itself, where the attached amount must be exactly `amt`), raises the collector's
+    by exactly the fee and the contract's by exactly that flow amount (by nothing otherwise): every unit
+    beyond fee + flow went back to the sender in the same transaction. -/
+theorem step_openFlow_fee_refund {c : Cfg} {s s' : St} {e : Env} {a amt : Nat} {st en : Option Nat}
+    (hnf : c.native c.feeAsset = true) (hs : e.sender ≠ INC) (hsc : e.sender ≠ COLLECTOR)
+    (hn : (keysOf e.offers).Nodup) (h : step c s e (.openFlow a amt st en) = .ok s') :
+    balOf s' e.sender c.feeAsset + c.feeAmt + (if a = c.feeAsset then amt - c.feeAmt else 0)
+        = balOf s e.sender c.feeAsset
+    ∧ balOf s' INC c.feeAsset = balOf s INC c.feeAsset + (if a = c.feeAsset then amt - c.feeAmt else 0)
+    ∧ balOf s' COLLECTOR c.feeAsset = balOf s COLLECTOR c.feeAsset + c.feeAmt := by
+  unfold step at h
+  simp only at h
+  obtain ⟨b, hb, h⟩ := bind_eq_ok h
+  obtain ⟨⟨s1, msgs⟩, h1, h⟩ := bind_eq_ok h
+  obtain ⟨b1, hb1, h⟩ := bind_eq_ok h
+  injection h with h
+  subst h
+  have h1' : openFlow c ({ s with bal := b } : St) e a amt st en = .ok (s1, msgs) := h1
+  obtain ⟨x, y, m0, m1, f, hfee, hasset, hm, hs', _⟩ := openFlow_delta h1'
+  subst hs' hm
+  obtain ⟨l1, l2, l3, l4⟩ := openFlow_fee_ledger hnf hs hsc (nodup_fundsOf hn) hfee hasset
+  refine ⟨?_, ?_, ?_⟩
+  · have t1 := attachFunds_eff (x := e.sender) (y := INC) e.sender c.feeAsset _ _ _ hb
+    rw [if_pos ⟨rfl, Ne.symm hs⟩, if_neg (fun hh => hs hh.1.symm)] at t1
+    have t2 := applyMsgs_eff e.sender c.feeAsset _ _ _ _ hb1
+    simp only at t2
+    unfold balOf
+    simp only
+    omega
+  · have t1 := attachFunds_eff (x := e.sender) (y := INC) INC c.feeAsset _ _ _ hb
+    rw [if_neg (fun hh => hs hh.1), if_pos ⟨rfl, hs⟩] at t1
+    have t2 := applyMsgs_eff INC c.feeAsset _ _ _ _ hb1
+    simp only at t2
+    unfold balOf
+    simp only
     omega
   · have t1 := attachFunds_eff (x := e.sender) (y := INC) COLLECTOR c.feeAsset _ _ _ hb
     rw [if_neg (fun hh => hsc hh.1), if_neg (fun hh => collector_ne_inc hh.1.symm)] at t1
